@@ -342,6 +342,18 @@ where
                 self.inner.sink.is_disconnect_sent();
                 self.inner.control(ProtocolMessage::remote_disconnect()).await
             }
+            Decoded::Packet(
+                pkt @ (Packet::Connect(_)
+                | Packet::ConnectAck(_)
+                | Packet::SubscribeAck { .. }
+                | Packet::UnsubscribeAck { .. }
+                | Packet::PingResponse),
+                _,
+            ) => Err(ProtocolError::unexpected_packet(
+                pkt.packet_type(),
+                "Packet of the type is not expected from client",
+            )
+            .into()),
             Decoded::Packet(..) => Ok(None),
         }
     }
